@@ -73,16 +73,18 @@ package roi
 // GetMask (C18: mask queries agree with the spans for all signed coordinates): the block range covered by
 // the requested subvolume is the FLOOR block of its first and last voxel in each dimension (fdiv of
 // /verif/specs/geom.spec), so ROI blocks at negative coordinates are not skipped. ASSUMED: the instance's
-// block size is positive (instance invariant).
+// block size is positive (instance invariant). The mask is allocated only for a subvolume of at least one
+// voxel in every dimension (C20: a negative size is refused, not answered with a recovered makeslice panic).
 //@ func blockOf
 //@   prop C18
 //@   requires blockSize > 0
 //@   ensures result == fdiv(v, blockSize)
 
 //@ func Data.GetMask
-//@   prop C18
+//@   prop C18 C20
 //@   requires d != nil
 //@   safety_off
 //@   modifies *
 //@   assume after "pt1 := subvol.EndPoint()": d.BlockSize[0] > 0 && d.BlockSize[1] > 0 && d.BlockSize[2] > 0
 //@   assert at "minIndex := minIndexByBlockZ(minBlockZ)": minBlockZ == fdiv(pt0.Value(2), d.BlockSize[2]) && maxBlockZ == fdiv(pt1.Value(2), d.BlockSize[2]) && minBlockY == fdiv(pt0.Value(1), d.BlockSize[1]) && maxBlockY == fdiv(pt1.Value(1), d.BlockSize[1]) && minBlockX == fdiv(pt0.Value(0), d.BlockSize[0]) && maxBlockX == fdiv(pt1.Value(0), d.BlockSize[0])
+//@   assert at "data := make([]uint8, numVoxels)": size.Value(0) >= 1 && size.Value(1) >= 1 && size.Value(2) >= 1 && numVoxels >= 1
